@@ -292,8 +292,9 @@ def run(prog: Program, rep: Report, tier: str = "quick") -> None:
     )
     rep.rule_text = "per model: margin/scale agreement, normaliser ratio, result shape for 2 and 3..8 teams"
     rep.trust("abstract interpreter osv/ai; osv/poly.py normal form; pair-chunking axiom; _rank_data returns a list positionally aligned with its argument (allocates [0]*len and assigns by index)")
-    rep.not_decided = ["the competition-ranking logic of _rank_data and the reversal against the maximum (run-time ordering of floats)", "probabilities in [0, 1]"]
-    for lst in parallel_map(_job, list(range(len(roles)))) + parallel_map(_ranks_job, [(i, n) for i in range(len(roles)) for n in (2, 3)]):
+    rep.not_decided = ["the ranking clause for more than 3 teams in the quick tier, more than 4 in the thorough tier (R11.4 enumerates the 3 + 13 (+ 75) weak orderings of 2, 3 (and 4) probabilities)",
+                       "probabilities in [0, 1] for 3 or more teams (the two-team case is R11.6)"]
+    for lst in parallel_map(_job, list(range(len(roles)))) + parallel_map(_ranks_job, [(i, n) for i in range(len(roles)) for n in ((2, 3, 4) if tier == "thorough" else (2, 3))]):
         for d in lst:
             rep.add(Instance(d["rule"], d["verdict"], d["module"], d["function"], d["construct"], d["line"], d.get("message", ""), d.get("detail", {})))
     n = len(roles)
